@@ -377,7 +377,8 @@ func runC09(tier string, _ []string) int {
 	// ---------------- part B: who may log in
 	nScen := c.N(40, 600)
 	scen := []string{"plain", "moved", "mirrored-old-deleted", "deleted", "deleted-readded", "under-deleted-group", "under-deleted-then-mirrored-live",
-		"two-users-one-email-one-deleted", "two-users-both-deleted", "wrong-password", "moved-twice", "group-moved", "random-history"}
+		"two-users-one-email-one-deleted", "two-users-both-deleted", "wrong-password", "moved-twice", "group-moved", "random-history",
+		"mirrored-then-later-group-deleted", "mirrored-then-first-group-deleted", "mirrored-both-groups-deleted", "mirrored-later-group-deleted-and-restored", "three-placements-middle-live"}
 	vlib.Parallel((nScen+len(scen)-1)/len(scen), 4, func(bi int) {
 		r := vlib.NewR(c.Seed, "c09b", bi)
 		authToken := "tok-" + r.Ident(8)
@@ -480,6 +481,26 @@ func runC09(tier string, _ []string) int {
 				step(tomb(u2, g3, 1))
 			case "wrong-password":
 				tryPass = pass + "x"
+			case "mirrored-then-later-group-deleted":
+				step(mirror(u, g3, "user"))
+				step(tomb(g2, in.RootID, 1)) // g3 hangs under g2: the later placement now leads to a deleted group
+			case "mirrored-then-first-group-deleted":
+				step(mirror(u, g3, "user"))
+				step(tomb(g1, in.RootID, 1))
+			case "mirrored-both-groups-deleted":
+				step(mirror(u, g3, "user"))
+				step(tomb(g1, in.RootID, 1))
+				step(tomb(g3, g2, 1))
+			case "mirrored-later-group-deleted-and-restored":
+				step(mirror(u, g3, "user"))
+				step(tomb(g3, g2, 1))
+				step(tomb(g1, in.RootID, 1))
+				step(tomb(g3, g2, 0))
+			case "three-placements-middle-live":
+				step(mirror(u, g2, "user"))
+				step(mirror(u, g3, "user"))
+				step(tomb(g1, in.RootID, 1))
+				step(tomb(u, g3, 1))
 			case "group-moved":
 				step(mirror(g1, g3, "group"))
 				step(tomb(g1, in.RootID, 1))
